@@ -46,6 +46,10 @@ pub fn catalogue(w: &World, tier: &str, seed: u64, reps: usize) -> Vec<FaultCase
                 }
             };
             for m in &msgs {
+                if cfg.name.ends_with("-big") && !(m.label == "preprocessed gates" || (m.label == "labels" && !thorough)) {
+                    // the small configurations cover the other fields; here: every chunk of garbled gates
+                    continue;
+                }
                 let s = seed ^ ((ci as u64) << 40) ^ ((c as u64) << 32) ^ ((m.idx_from as u64) << 8);
                 match m.label.as_str() {
                     "wire shares" | "output wire shares" | "lambda" => {
